@@ -17,6 +17,7 @@ static fibre_eventq_t hq;
 static fibre_t yf;
 static struct { fibre_t f; uint32_t wake; } sf;
 static int eqdepth, period, npass, nisr, sleeper = 1;
+static int srun;             /* the sleeping fibre calls fibre_run(handler) at the start of every dispatch, before it asks for its timeout */
 static int seqmark;          /* directed execution: interrupt-context calls run to completion one at a time */
 static int pass_ended;       /* the last step of context 0 returned from fibre_scheduler_next */
 static int eqroll, aqroll;   /* messages that went through the event queue / the atomic run queue before the scenario starts */
@@ -47,6 +48,8 @@ static int y_body(fibre_t *f)
 }
 static int s_body(fibre_t *f)
 {
+	if (srun)
+		fibre_run(&hq.fibre);        /* drains the interrupt-safe queue in the middle of this fibre's own dispatch */
 	PT_BEGIN_FIBRE(f);
 	while (1) {
 		sf.wake += period;
@@ -113,8 +116,8 @@ static void reset(void)
 	vrt_region("eq_receivep", &hq.eventq.receivep, sizeof(hq.eventq.receivep), 0, 0);
 	vrt_region("eq_slot", evstore, eqdepth * evsize, evsize, 2);
 	vrt_region("taint", fibre_verif_taint_flags(), sizeof(unsigned int), 0, 1);
-	printf("{\"e\":\"Reset\",\"eqdepth\":%d,\"period\":%d,\"sleeper\":%d,\"eqstart\":%d,\"aqstart\":%d,\"seq\":%d,\"main\":[", eqdepth, period, sleeper,
-	       eqroll % eqdepth, aqroll % 8, seqmark);
+	printf("{\"e\":\"Reset\",\"eqdepth\":%d,\"period\":%d,\"sleeper\":%d,\"eqstart\":%d,\"aqstart\":%d,\"seq\":%d,\"srun\":%d,\"main\":[", eqdepth, period, sleeper,
+	       eqroll % eqdepth, aqroll % 8, seqmark, srun);
 	for (int k = 0; k < npass; k++) printf("%s%ld", k ? "," : "", times[k]);
 	printf("],\"isr\":[");
 	for (int i = 1; i <= nisr; i++) printf("%s{\"k\":\"%s\",\"a\":%d}", i > 1 ? "," : "", iprog[i].kind ? "event" : "run", iprog[i].arg);
@@ -175,6 +178,7 @@ static void full(long seed, int nexec)
 	seqmark = 1;
 	for (int x = 0; x < nexec; x++) {
 		eqdepth = 12; period = 1 + drv_below(3); sleeper = drv_below(5) == 0;
+		srun = sleeper && drv_below(2);
 		/* now and then: large events in a deep queue (the buffer is longer than 64 KiB) */
 		evsize = sizeof(event_t);
 		if (drv_below(4) == 0) { evsize = 4096; eqdepth = 32; }
@@ -201,7 +205,7 @@ static void full(long seed, int nexec)
 		for (int i = j + 1; i <= nisr; i++)
 			for (int guard = 0; guard < 100 && !vrt_finished(i); guard++) if (step(i) <= 0) break;
 	}
-	seqmark = 0;
+	seqmark = 0; srun = 0;
 	evsize = sizeof(event_t);
 }
 static void gen(long seed, int nexec, int irq)
@@ -212,6 +216,7 @@ static void gen(long seed, int nexec, int irq)
 		eqroll = drv_below(3) ? 0 : (int)drv_below(700);
 		aqroll = drv_below(3) ? 0 : (int)drv_below(700);
 		npass = 3 + drv_below(8);
+		srun = sleeper && drv_below(3) == 0;
 		long t = 0;
 		for (int k = 0; k < npass; k++) { t += drv_below(3); times[k] = t; }
 		nisr = 1 + drv_below(irq ? 6 : 5);
@@ -249,6 +254,7 @@ int main(void)
 			for (int i = 1; i <= nisr; i++) { iprog[i].kind = drv_arg(&c, a++); iprog[i].arg = drv_arg(&c, a++); }
 			eqroll = c.ntok > a + 1 ? drv_arg(&c, a++) : 0;
 			aqroll = c.ntok > a + 1 ? drv_arg(&c, a++) : 0;
+			srun = c.ntok > a + 1 ? drv_arg(&c, a++) : 0;
 			reset();
 		} else if (drv_is(&c, "S")) step(drv_arg(&c, 0));
 		else if (drv_is(&c, "Full")) full(drv_arg(&c, 0), drv_arg(&c, 1));
